@@ -22,7 +22,7 @@ type c13Op struct {
 	inv, resp int // logical timestamps
 }
 
-const c13Kinds = 10
+const c13Kinds = 11
 
 func c13Run(s *SharedStore, o *c13Op) {
 	switch o.kind {
@@ -60,6 +60,8 @@ func c13Run(s *SharedStore, o *c13Op) {
 		s.Merge(map[string]any{"a": o.val, "b": o.val})
 	case 8:
 		s.Clear()
+	case 10:
+		o.n = s.GetIntOr(o.key, 7) // a typed getter with a default: a read like Get
 	default:
 		o.gotSlice = append([]any(nil), s.GetSlice(o.key)...) // a typed getter: a read like Get (result copied by the caller itself)
 		if o.gotSlice != nil && len(o.gotSlice) == 0 {
@@ -75,6 +77,20 @@ func c13SliceOf(v any) (any, bool) {
 		return t[0], true
 	}
 	return nil, false
+}
+
+// c13IntOf: what GetIntOr(k, 7) answers for the value kinds used here
+func c13IntOf(has bool, val any) int {
+	if !has {
+		return 7
+	}
+	switch v := val.(type) {
+	case int:
+		return v
+	case float64:
+		return int(v)
+	}
+	return 7
 }
 
 func c13SliceAgrees(got []any, has bool, val any) bool {
@@ -155,6 +171,8 @@ func (r *c13Ref) apply(o *c13Op) bool {
 	case 8:
 		*r = c13Ref{}
 		return true
+	case 10:
+		return o.n == c13IntOf(*has, *val)
 	default:
 		return c13SliceAgrees(o.gotSlice, *has, *val)
 	}
@@ -166,7 +184,7 @@ var c13ValueKind = -1
 
 func c13Val(label string) any {
 	if c13ValueKind < 0 {
-		c13ValueKind = vChoice("valueKind", 3) // one kind for all values of the run
+		c13ValueKind = vChoice("valueKind", 4) // one kind for all values of the run
 	}
 	switch c13ValueKind {
 	case 1:
@@ -175,6 +193,9 @@ func c13Val(label string) any {
 	case 2:
 		vCover("typed-slice-values")
 		return []int{vNondet[int](label + ".val")}
+	case 3:
+		vCover("float-values")
+		return 2.5
 	}
 	return vNondet[int](label + ".val")
 }
